@@ -154,7 +154,7 @@ func (m *Model) Enabled(w *world.World) []string {
 					s = append(s, ev)
 				}
 			case "i.s":
-				if strings.HasPrefix(st, "importing") {
+				if strings.HasPrefix(st, "importing") && w.ImportQueued {
 					s = append(s, ev)
 				}
 			}
@@ -264,6 +264,9 @@ func (m *Model) Run(hist []string) *proto.Result {
 	}
 	diffs, obs := w.CheckLedger()
 	diffs = append(diffs, pre...)
+	if m.O.Import || m.O.Remove {
+		diffs = append(diffs, w.CheckTasksDone()...)
+	}
 	if m.O.Remove {
 		diffs = append(diffs, w.CheckRemoved()...)
 	}
